@@ -142,7 +142,7 @@ def r2(ctx, F, rule, sfx):
     ctx.check(rule, 'leaf-key' + sfx, key == want, repr(key)[:120], '|q + s - g|^2', where(le), key_extra='leaf')
     ctx.check(rule, 'leaf-key-is-distance-to-builder-position' + sfx, key == want2, 'key - |q - (g - s)|^2 = %r' % (key - want2,), '0 (reported shift is -s, C03.R4)', where(le), key_extra='leaf-builder')
     new, eh, nx = wrapped(F)
-    cl = F.closures_of(eh)
+    cl = [c_ for c_ in F.closures_of(eh) if '::{closure' not in c_['path'][len(eh['path']) + 2:].split('}', 1)[-1]]      # closures defined directly in extend_heap
     if len(cl) != 1:
         raise AnalysisIncomplete('closures in extend_heap: %d' % len(cl))
     cl = cl[0]
@@ -157,6 +157,15 @@ def r2(ctx, F, rule, sfx):
     v, _ = ip.call_body(cl, [ip.ref_to(I.St('closure:' + cl['path'], None, env), mut=True), ip.ref_to(child)])
     ctx.evaluations += ip.evaluations
     w = where(cl)
+    # an entry-building closure that can decline (filter_map): every child must get an entry — a child that is not pushed is never searched
+    arms = cases(v) if isinstance(v, I.Ite) or (isinstance(v, I.St) and v.variant in ('Some', 'None')) else None
+    if arms is not None and any(isinstance(leaf, I.St) and leaf.variant in ('Some', 'None') for _c, leaf in arms):
+        dropped = [conds for conds, leaf in arms if isinstance(leaf, I.St) and leaf.variant == 'None']
+        kept = [leaf.fields[0] for conds, leaf in arms if isinstance(leaf, I.St) and leaf.variant == 'Some']
+        ctx.check(rule, 'every-child-gets-an-entry' + sfx, not dropped, 'no entry when %s' % ([' & '.join(repr(c)[:90] for c in cs) for cs in dropped][:1] or 'never'), 'one heap entry per child, unconditionally', w, key_extra='dropped-child')
+        if len(kept) != 1:
+            raise AnalysisIncomplete('heap entry closure yields %d different entries' % len(kept))
+        v = kept[0]
     node = repr(I.frozen(I.get_field(v, 'node')))
     shift = repr(I.get_field(v, 'shift')).replace(' ', '')
     ctx.check(rule, 'entry-node-is-child' + sfx, node == 'child', node, 'the child being inserted', w, key_extra='node')
@@ -189,7 +198,7 @@ def r2(ctx, F, rule, sfx):
     if len(ext) == 1:
         ch, src = stream_chain(ext[0].fargs[1])
         heap_field = heap_elem_type(F)[1]['name']
-        ok = [n for n, _ in ch] == ['map', 'iter'] and repr(src) == 'children' and repr(ext[0].fargs[0]).endswith('it.' + heap_field)
+        ok = [n for n, _ in ch] in (['map', 'iter'], ['filter_map', 'iter']) and repr(src) == 'children' and repr(ext[0].fargs[0]).endswith('it.' + heap_field)
     ctx.check(rule, 'one-entry-per-child' + sfx, ok, 'extend calls: %d' % len(ext), 'self.nodes.extend(children.iter().map(entry))', where(eh), key_extra='extend')
     # the search step
     ip = I.Interp(F, no_inline=[eh['path']])
